@@ -3,7 +3,7 @@
     a reloaded event type still yields its gate tree (repaired tree; refuted for the pinned tree).
     events.py:250-301, 599-713. *)
 From Coq Require Import List Bool PArith Arith.
-From V Require Import Puml.Ast Puml.Exec Pv.EventModel Pv.EventModelProofs.
+From V Require Import Puml.Ast Puml.Exec Pv.EventModel Pv.EventModelProofs Pv.Driver Pv.DriverProofs.
 Import ListNotations.
 
 Theorem c04_load_save : forall m, wf_model m = true -> load (save m) = Some m.
@@ -64,3 +64,34 @@ Theorem c04_tree_fresh_v0_refuted : forall (tree : Type) (clg : list mset -> tre
               e_outs tree s <> [] /\ fst (get_tree tree clg s) = None.
 Proof. exact tree_fresh_v0_refuted. Qed.
 Print Assumptions c04_tree_fresh_v0_refuted.
+
+(** The glue (pv_to_puml.py:267-313, otel_to_puml.py:57-69): several job names in one invocation, -im / -om,
+    chained invocations.  Tied to the code by the driver leg of harness/c04.py. *)
+Theorem c04_run_streams_isolated : forall mp streams, NoDup (map fst streams) ->
+  snd (run_streams mp streams) =
+  map (fun s => mkemitted (file_name (fst s)) (fst s)
+                          (ingest_from (match get (fst s) mp with Some m => m | None => [] end) (snd s))) streams.
+Proof. exact run_streams_isolated. Qed.
+Print Assumptions c04_run_streams_isolated.
+
+Theorem c04_chain_one_shot : forall runs,
+  Forall (fun r => NoDup (map fst r)) runs ->
+  (forall n n', occurs runs n -> occurs runs n' -> file_name n = file_name n' -> n = n') ->
+  exists d, chain runs = Some d /\
+    (forall n, occurs runs n ->
+       fget (file_name n) d = Some (n, save (ingest_from [] (List.concat (map (jobs_of n) runs))))) /\
+    (forall f, (forall n, occurs runs n -> f <> file_name n) -> fget f d = None).
+Proof. exact chain_one_shot. Qed.
+Print Assumptions c04_chain_one_shot.
+
+(** two job names that differ only in space / underscore share their output files: the later one wins *)
+Theorem c04_chain_collision_refuted : exists runs, Forall (fun r => NoDup (map fst r)) runs /\
+  exists d, chain runs = Some d /\ exists n, (exists r, In r runs /\ In n (map fst r)) /\
+    fget (file_name n) d <> Some (n, save (ingest_from [] (List.concat (map (jobs_of n) runs)))).
+Proof. exact chain_collision_refuted. Qed.
+Print Assumptions c04_chain_collision_refuted.
+
+Theorem c04_load_inputs_last_wins : forall files mp, load_inputs files [] = Some mp ->
+  forall n, get n mp = last_model files n.
+Proof. exact load_inputs_last_wins. Qed.
+Print Assumptions c04_load_inputs_last_wins.
